@@ -69,7 +69,7 @@ CHECKS["C02"] = dict(category="proof",
    design_ref="DESIGN.md §0.2, §4.2", note=RESP_NOTE,
    technique="Lean 4 proof (implementers = documented on the emitted-type model) + complete go/types method-set comparison per generated program + per-constructor write validation")
 CHECKS["C06"] = dict(category="translation_validation",
-   text="Lean theorems fields_roundtrip (object level of the round trip: for every property list with distinct names, decodeFields (toJFields vs) = vs with nothing left in the key map, given the same statement for each property's own value) and encode_members_wellformed / writeItems_inv: for every item list (any number of plain and embedded members, empty ones included) the modelled member writer emits a comma-separated member sequence without leading, trailing or doubled commas that parses back to exactly the flattened members (and old_writer_* prove the pre-fix writer did not). The round trip itself (decode (encode v) = v) is checked per generated program: values built by reflection from the schema, MarshalJSON output must be valid, duplicate-free JSON, decode back to an equal value, and agree with the model toJ / dumpVal. The induction over the whole schema tree is not done, so the claim is translation validation with proved object-level and syntactic cores.",
+   text="Lean theorem rt_roundtrip (module Props.C06b): for the fragment of schemas made of primitive leaves, arrays and objects without additionalProperties (nullable or not, nested to any depth) and every value whose leaves the library round-trips and whose objects have distinct property names, decode (toJ v) = v - unset optionals stay unset, nulls stay null, every element and property preserved (induction on a size bound over the mutually recursive codec model; leaf behaviour is the measured table). Also fields_roundtrip (object level of the round trip: for every property list with distinct names, decodeFields (toJFields vs) = vs with nothing left in the key map, given the same statement for each property's own value) and encode_members_wellformed / writeItems_inv: for every item list (any number of plain and embedded members, empty ones included) the modelled member writer emits a comma-separated member sequence without leading, trailing or doubled commas that parses back to exactly the flattened members (and old_writer_* prove the pre-fix writer did not). The round trip itself (decode (encode v) = v) is checked per generated program: values built by reflection from the schema, MarshalJSON output must be valid, duplicate-free JSON, decode back to an equal value, and agree with the model toJ / dumpVal. Outside that fragment (maps, allOf, oneOf, untyped values, nil slices) the round trip is validated, so the claim stays translation validation with a proved fragment.",
    design_ref="DESIGN.md §4.6", note=JSON_NOTE,
    technique="Lean 4 proof of the comma/flattening discipline of the emitted writer + executable codec model, differential round trips per generated type")
 CHECKS["C07"] = dict(category="translation_validation",
@@ -81,7 +81,7 @@ CHECKS["C08"] = dict(category="translation_validation",
    design_ref="DESIGN.md §4.8", note=JSON_NOTE,
    technique="Lean 4 proofs over the modelled per-property decode loop + executable codec model, differential validation incl. single-fault mutants")
 CHECKS["C09"] = dict(category="translation_validation",
-   text="Lean theorems parseInt_formatInt / parseBool_formatBool: for the closed-form leaves (decimal integers of the three widths, booleans) what the client formats the server parses back to the same value, for every value in range; floats, times, URL escaping and header canonicalisation are library behaviour and validated. Per generated program with --client: seeded parameter structs (path, query scalar/array, header, JSON or raw body; optionals set and unset) are sent through the API's own LocalClient to the generated server in-process; the canonical dump of what the handler's Parse() returns must equal the dump of what was sent, and the recorded wire request must be accepted by the independent Lean reference for C04/C05 (typed value of the text on the wire). One call in six goes through a real loopback HTTP server and net/http's client.",
+   text="Lean theorems parseInt_formatInt / parseInts_formatInts / parseBool_formatBool / parseBools_formatBools: for the closed-form leaves (decimal integers of the three widths, booleans) what the client formats the server parses back to the same value, for every value in range; floats, times, URL escaping and header canonicalisation are library behaviour and validated. Per generated program with --client: seeded parameter structs (path, query scalar/array, header, JSON or raw body; optionals set and unset) are sent through the API's own LocalClient to the generated server in-process; the canonical dump of what the handler's Parse() returns must equal the dump of what was sent, and the recorded wire request must be accepted by the independent Lean reference for C04/C05 (typed value of the text on the wire). One call in six goes through a real loopback HTTP server and net/http's client.",
    design_ref="DESIGN.md §4.9", note=RESP_NOTE,
    technique="client->server round trips per generated program, compared by canonical dumps; Lean reference for the wire request")
 CHECKS["C10"] = dict(category="translation_validation",
